@@ -248,17 +248,19 @@ func (p *pkgInfo) touched(name, method string) ([]string, bool) {
 					if !ok {
 						continue
 					}
+					// only "recv.F = x" and "recv.F = T(x)" with x a local variable
 					for _, rhs := range x.Rhs {
-						ast.Inspect(rhs, func(m ast.Node) bool {
-							if id, ok := m.(*ast.Ident); ok {
-								if o := p.info.Uses[id]; o != nil && isLocal(o) {
-									if at, ok := localSeq[o]; ok {
-										touch(f, at)
-									}
+						e := rhs
+						if call, ok := e.(*ast.CallExpr); ok && len(call.Args) == 1 {
+							e = call.Args[0]
+						}
+						if id, ok := e.(*ast.Ident); ok {
+							if o := p.info.Uses[id]; o != nil && isLocal(o) {
+								if at, ok := localSeq[o]; ok {
+									touch(f, at)
 								}
 							}
-							return true
-						})
+						}
 					}
 				}
 			case *ast.SelectorExpr:
@@ -289,7 +291,12 @@ func (p *pkgInfo) touched(name, method string) ([]string, bool) {
 	for f := range fieldSeq {
 		order = append(order, f)
 	}
-	sort.Slice(order, func(i, j int) bool { return fieldSeq[order[i]] < fieldSeq[order[j]] })
+	sort.Slice(order, func(i, j int) bool {
+		if fieldSeq[order[i]] != fieldSeq[order[j]] {
+			return fieldSeq[order[i]] < fieldSeq[order[j]]
+		}
+		return order[i] < order[j]
+	})
 	return order, true
 }
 
